@@ -7,6 +7,7 @@ import (
 	"testing"
 	"time"
 
+	"github.com/dgrr/http2"
 	"pgregory.net/rapid"
 
 	"verif/harness/peer"
@@ -44,6 +45,11 @@ type c17Case struct {
 	Linger   bool     `json:"linger,omitempty"` // handlers are released only after the peer is gone
 	RespLen  int      `json:"resplen,omitempty"`
 	Streamed bool     `json:"streamed,omitempty"`
+	// Pings (with NoRead only, where no quiescence is needed): the server pings every 2 ms. Fill: before the
+	// disconnect the peer, which is not reading, sends PINGs until the server's write queue is exactly full (hook
+	// counters), and waits a few ping intervals, so that the server's own timers find the queue full when they fire.
+	Pings bool `json:"pings,omitempty"`
+	Fill  bool `json:"fill,omitempty"`
 }
 
 // c17Recording builds the well-formed client byte stream of the case.
@@ -168,7 +174,11 @@ func c17Run(c c17Case) Outcome {
 	if len(c.Reqs) > 90 {
 		maxStreams = 1024 // the "many handlers" cases
 	}
-	h := peer.StartRaw(peer.Config{MaxConcurrentStreams: maxStreams, MaxRequestBodySize: 1 << 20, Responses: resps, DefaultResp: peer.Resp{Status: 200}, Tracker: c17Tracker})
+	cfg17 := peer.Config{MaxConcurrentStreams: maxStreams, MaxRequestBodySize: 1 << 20, Responses: resps, DefaultResp: peer.Resp{Status: 200}, Tracker: c17Tracker}
+	if c.Pings && c.NoRead {
+		cfg17.PingInterval = 2 * time.Millisecond
+	}
+	h := peer.StartRaw(cfg17)
 	defer h.Close()
 	if c17Tracker != nil {
 		c17Tracker.Take()
@@ -190,6 +200,20 @@ func c17Run(c c17Case) Outcome {
 		h.S.FailWritesAfter(int64(c.FailW))
 	}
 	_ = h.Write(stream[:n])
+	if c.NoRead && c.Fill && c.FailW == 0 {
+		gap := func() int64 {
+			ev := &h.Stats.Ev
+			return ev[http2.VerifEvQueued].Load() - ev[http2.VerifEvWritten].Load() - ev[http2.VerifEvDropped].Load()
+		}
+		by := time.Now().Add(2 * time.Second)
+		for k := 0; k < 800 && gap() < 129 && time.Now().Before(by) && h.Stats.Ev[http2.VerifEvReadLoopExit].Load() == 0; k++ {
+			_ = h.Write(rawframe.Append(nil, rawframe.Ping, 0, 0, make([]byte, 8)))
+			for spin := 0; spin < 2000 && gap() < 129 && h.S.Unread() > 0 && time.Now().Before(by); spin++ {
+				time.Sleep(20 * time.Microsecond)
+			}
+		}
+		time.Sleep(8 * time.Millisecond) // a few ping intervals
+	}
 	if !c.NoRead && c.FailW == 0 {
 		// let the server digest what it got before the connection goes
 		if ok, d := h.Quiesce(); !ok {
@@ -287,6 +311,29 @@ func c17Run(c c17Case) Outcome {
 			return fail("pool", "%s: %s", desc, v[0])
 		}
 	}
+	// nothing of the connection may be at work any more: its hook counters (frames queued, dropped, written, loop
+	// iterations) must stand still. A timer that was re-armed on the way out keeps firing and shows here (each
+	// firing is a goroutine of the dead connection, too short-lived for the dump above).
+	{
+		var a, b [17]int64
+		for i := range a {
+			a[i] = h.Stats.Ev[i].Load()
+		}
+		time.Sleep(12 * time.Millisecond)
+		for i := range b {
+			b[i] = h.Stats.Ev[i].Load()
+		}
+		if a != b {
+			time.Sleep(12 * time.Millisecond)
+			var c3 [17]int64
+			for i := range c3 {
+				c3[i] = h.Stats.Ev[i].Load()
+			}
+			if c3 != b {
+				return fail("active-after-return", "%s: ServeConn has returned and every handler is gone, but the connection is still at work: its counters moved from %v to %v to %v within 24 ms (a timer of the connection keeps firing)", desc, a, b, c3)
+			}
+		}
+	}
 	frames, _ := rawframe.Split(stream[len(peer.Preface):])
 	inside := false
 	off := len(peer.Preface)
@@ -311,6 +358,12 @@ func c17Run(c c17Case) Outcome {
 	}
 	if c.NoRead {
 		cls = append(cls, "noread")
+	}
+	if c.NoRead && c.Pings {
+		cls = append(cls, "server-pings")
+	}
+	if c.NoRead && c.Fill && c.FailW == 0 {
+		cls = append(cls, "write-queue-filled")
 	}
 	if c.FailW > 0 {
 		cls = append(cls, "write-failure")
@@ -365,6 +418,8 @@ func c17Gen(t *rapid.T) c17Case {
 	}
 	c.Reset = rapid.Bool().Draw(t, "reset")
 	c.NoRead = rapid.IntRange(0, 5).Draw(t, "noread") == 0
+	c.Pings = rapid.Bool().Draw(t, "pings")
+	c.Fill = rapid.Bool().Draw(t, "fill")
 	if rapid.IntRange(0, 5).Draw(t, "failw") == 0 {
 		c.FailW = rapid.OneOf(rapid.IntRange(1, 100), rapid.IntRange(1, 70000)).Draw(t, "failat")
 	}
